@@ -18,6 +18,9 @@ func init() { core.Register(c06{}) }
 
 func (c06) ID() string { return "C06" }
 
+// EvalFeatures names the counters of judged executions.
+func (c06) EvalFeatures() []string { return []string{"faults-reached", "faults-not-reached"} }
+
 func (c06) Cases(tier string) int {
 	if tier == "thorough" {
 		return 200000
